@@ -31,6 +31,12 @@ HEADER = ('From Coq Require Import List Bool Arith ZArith QArith.\n'
           '  let E := hierarchy_e_k n (map fst L0 :: map (map fst) (gts0 ++ eqs0)) p in\n'
           '  (E, make_sig_lagrangian n f 0%Z E gts eqs).\n'
           'Definition out_eqb := pair_eqb (list_eqb qrow_eqb) ssig_eqb2.\n'
+          '(* primal form at ell >= 1: the Lagrangian times the modulator, as a symbolic product *)\n'
+          'Definition model_mod (x : (nat * qsig * list qsig * list qsig * nat * list (qsig * list Z) * list (qsig * list Z)) * qsig) :=\n'
+          "  let '(base, t) := x in let '(n, f, gts0, eqs0, p, gts, eqs) := base in\n"
+          '  let L0 := lagrangian0 n f 0%Z in\n'
+          '  let E := hierarchy_e_k n (map fst L0 :: map (map fst) (gts0 ++ eqs0)) p in\n'
+          '  seval false n (YMul (lagrangian_tree f 0%Z E gts eqs) (YNum t)).\n'
           '(* dual form (ell = 0): normalisation vector, objective vector and the moment-reduction arrays of all multipliers,\n'
           '   computed by the model functions of C16 on the basis of the Lagrangian *)\n'
           'Definition mra (n : nat) (L : qsig) (sg : list qrow * qsig) : option (list (list Q)) :=\n'
@@ -157,7 +163,7 @@ def dual_case(fo, go, ho, p, q, n):
 def run(ctx):
     from sageopt.relaxations import sage_sigs as ss
     from sageopt.relaxations import constraint_generators as cg
-    cases, folds, duals = [], [], []
+    cases, folds, duals, mods = [], [], [], []
     for k in range(ctx.n(120, 1200)):
         n, f, gts, eqs, p, q = build(ctx.rng)
         fo = c03.sig_obj(f, n)
@@ -196,6 +202,16 @@ def run(ctx):
         cin = cq((Nat(n), c12.canon(fo), [c12.canon(g) for g in go], [c12.canon(h) for h in ho], Nat(p), gl, hl))
         cases.append((js, cin, '(%s, Some %s)' % (cq(E), c13.rows_coq(Lrows))))
         folds.append((js, cq((Nat(n), [c12.canon(g) for g in go], Nat(q))), cq([c12.canon(g) for g, in [(x[1],) for x in ineq]])))
+        if k % 3 == 0 and L.m <= 25:
+            # the modulated Lagrangian of the primal form at ell = 1 (same multipliers, so the same Variable ids)
+            from sageopt.symbolic.signomials import Signomial as _Sig
+            with warnings.catch_warnings():
+                warnings.simplefilter('ignore')
+                aE1 = ss.hierarchy_e_k([fo, fo.upcast_to_signomial(1)] + go + ho, k=1)
+                tmod = _Sig(aE1, np.ones(aE1.shape[0])) ** 1
+                Lm = L * tmod
+            if Lm.m <= 120:
+                mods.append((dict(js, modulated_terms=int(Lm.m)), '(%s, %s)' % (cin, cq(c12.canon(tmod))), '(Some %s)' % c13.rows_coq(canon_L(Lm, idmap))))
         if k % 2 == 0 and L.m <= 40:
             try:
                 dcin, dcout, dmeta = dual_case(fo, go, ho, p, q, n)
@@ -235,6 +251,7 @@ def run(ctx):
     T_in = 'nat * qsig * list qsig * list qsig * nat * list (qsig * list Z) * list (qsig * list Z)'
     for name, cs, model, eqb, tin, tout in (('lagrangian', cases, 'model', 'out_eqb', T_in, 'list qrow * option ssig'),
                                             ('q_fold', folds, "fun x => let '(n, gs, q) := x in q_fold n gs q", 'fold_eqb', 'nat * list qsig * nat', 'list qsig'),
+                                            ('lagrangian_modulated', mods, 'model_mod', 'ssig_eqb2', '(%s) * qsig' % T_in, 'option ssig'),
                                             ('constrained_dual', duals, 'model_cdual', 'cdual_eqb',
                                              'nat * qsig * list qrow * list (list qrow * qsig) * list (list qrow * qsig)',
                                              'list Q * list Q * list (option (list (list Q))) * list (option (list (list Q)))')):
